@@ -152,7 +152,21 @@ def make_convert_harness(cfg, tw):
                 graphs[k] = Subgraph(from_file=path)
             except exc.ValueError:
                 graphs[k] = None
-        return dict(ids=ids, labs=labs, feats=feats, loaded=loaded, parsed=parsed, graphs=graphs)
+        out = dict(ids=ids, labs=labs, feats=feats, loaded=loaded, parsed=parsed, graphs=graphs)
+        # history: a second data set exported under the SAME file names must be what is loaded afterwards
+        ids2 = [eng.int("jd%d" % i, 0, 1000000) for i in range(n)]
+        feats2 = [[eng.real("u_%d_%d" % (i, j)) for j in range(f)] for i in range(n)]
+        fields = [("i", n), ("i", K), ("i", f)]
+        for i in range(n):
+            fields += [("i", ids2[i]), ("i", labs[i])] + [("f", feats2[i][j]) for j in range(f)]
+        vfs.write_binary("data.dat", fields)
+        conv.opf2txt("data.dat")
+        conv.opf2csv("data.dat", "other.csv")
+        conv.opf2json("data.dat")
+        out["second"] = dict(ids=ids2, feats=feats2,
+                             loaded=dict(txt=loader.load_txt("data.txt"), csv=loader.load_csv("other.csv"),
+                                         json=loader.load_json("data.json")))
+        return out
     return harness
 
 
@@ -201,10 +215,33 @@ def convert_post(eng, cfg, out, info):
                         eng.check("%s-node-feature[%d,%d]" % (k, i, j), to_real(g.nodes[i].features._get((j,))) == to_real(feats[i][j]), info)
 
 
+def convert_post_second(eng, cfg, out, info):
+    n, f = cfg["n"], cfg["f"]
+    sec = out.get("second")
+    if not sec:
+        return
+    for k in ("txt", "csv", "json"):
+        arr = sec["loaded"][k]
+        ok = isinstance(arr, symnp.SArr) and arr.shape == (n, f + 2)
+        eng.check("%s-reloaded-shape" % k, ok, info)
+        if not ok:
+            continue
+        for i in range(n):
+            eng.check("%s-reload-sees-the-new-file-identifier[%d]" % (k, i),
+                      to_real(arr._get((i, 0))) == z3.ToReal(to_int(sec["ids"][i])), info)
+            for j in range(f):
+                eng.check("%s-reload-sees-the-new-file-feature[%d,%d]" % (k, i, j),
+                          to_real(arr._get((i, j + 2))) == to_real(sec["feats"][i][j]), info)
+
+
 def convert_payload(eng, m, cfg, out):
     ev = lambda v: common.fraction_to_float(eng.eval_model(m, v))
-    return dict(kind="stream_convert", cfg=cfg, ids=[ev(v) for v in out["ids"]], labs=[ev(v) for v in out["labs"]],
-                feats=[[ev(v) for v in r] for r in out["feats"]])
+    p = dict(kind="stream_convert", cfg=cfg, ids=[ev(v) for v in out["ids"]], labs=[ev(v) for v in out["labs"]],
+             feats=[[ev(v) for v in r] for r in out["feats"]])
+    if out.get("second"):
+        p["ids2"] = [ev(v) for v in out["second"]["ids"]]
+        p["feats2"] = [[ev(v) for v in r] for r in out["second"]["feats"]]
+    return p
 
 
 def run_config(cfg):
@@ -213,7 +250,10 @@ def run_config(cfg):
     if cfg["kind"] == "split":
         harness, post, pay = make_split_harness(cfg, tw), split_post, split_payload
     else:
-        harness, post, pay = make_convert_harness(cfg, tw), convert_post, convert_payload
+        def post(eng, cfg, out, info):
+            convert_post(eng, cfg, out, info)
+            convert_post_second(eng, cfg, out, info)
+        harness, pay = make_convert_harness(cfg, tw), convert_payload
 
     state = {}
 
